@@ -35,7 +35,7 @@ deriving DecidableEq, Repr
 inductive Exc | api (e : Err) | interrupted | cancelled | os | other
 deriving DecidableEq, Repr
 
-inductive Outcome | ok | err (e : Err) | rawRuntime
+inductive Outcome | ok | err (e : Err)
 deriving DecidableEq, Repr
 
 inductive RFut | none | pending | ok | tmo | failed (e : Err) | cancelled
@@ -133,6 +133,7 @@ structure State where
   gracefulAtClose : Option Bool := none   -- `graceful` at the step that closed the connection
   writes : Nat := 0
   deliveries : Nat := 0
+  refused : Nat := 0                -- phase calls refused with RuntimeError by the state guards
 deriving Repr
 
 inductive Pkt
@@ -154,7 +155,10 @@ deriving Repr
 
 def hsComplete (s : State) : Bool := s.st = .hsDone ∨ s.st = .connected
 
-/-! ## shared handlers -/
+/-! ## primitive actions
+
+Every state change of the model is a composition of the small updates below (`Lemmas/ConnReach.lean`
+shows each transition is a chain of them; invariants are proved once per primitive). -/
 
 /-- the error a waiter sees when `_cleanup` fails it -/
 def waiterErr : Option Fatal → Err
@@ -168,8 +172,7 @@ def failWaiter (f : Option Fatal) (r : Req) : Req :=
   else r
 
 /-- `_cleanup` (no early return: every part is idempotent; `was_connected` is false once closed).
-Written as ONE record update so that every field of the result is an explicit expression of the
-old state. -/
+ONE record update: every field of the result is an explicit expression of the old state. -/
 def cleanup (s : State) : State :=
   { s with
     st := .closed
@@ -194,15 +197,85 @@ def cleanup (s : State) : State :=
     onStopHeld := s.onStopHeld ∧ !(s.st = .connected)
     stops := if s.onStopHeld ∧ s.st = .connected then s.stops ++ [s.expected] else s.stops }
 
+def aSetFatal (f : Fatal) (s : State) : State := { s with fatal := if s.fatal.isNone then some f else s.fatal }
+def aWrite (s : State) : State := { s with writes := s.writes + 1 }
+def aMark (s : State) : State := { s with expected := true, graceful := true }
+def aAlive (s : State) : State := { s with pongArmed := false, pendingPing := false }
+def aDeliver (s : State) : State := { s with deliveries := s.deliveries + 1 }
+def aReadyFail (e : Err) (s : State) : State := { s with ready := if s.ready = .pending then .failed e else s.ready }
+def aTrClose (s : State) : State := { s with lostPending := s.lostPending || s.transportOpen, transportOpen := false }
+def aTrAbort (s : State) : State := { s with lostPending := true, lostExc := true, transportOpen := false }
+def aLostRun (s : State) : State :=
+  { s with lostPending := false, transportOpen := false, sockClosed := s.sockClosed || s.sockMade }
+
+/-- `handle_complex_message` for a collector whose stop predicate the packet satisfies -/
+def resolveReq (r : Req) : Req :=
+  if r.registered ∧ r.fut = .pending then { r with fut := .ok } else r
+/-- the `finally` block of a request -/
+def finishReq (r : Req) : Req := { r with registered := false, inWaiters := false, timer := false }
+def startReq : Req := { fut := .pending, registered := true, inWaiters := true, timer := true }
+
+def aDiscRespArr (s : State) : State := { s with discReq := resolveReq s.discReq }
+
+/-- the collector's handler: append, and stop on a response of the last expected type -/
+def collect (s : State) (r : HResp) : State :=
+  if s.hello.registered ∧ s.hello.fut = .pending then
+    match r with
+    | .hello _ _ => { s with collected := s.collected ++ [r], hello := if s.login then s.hello else { s.hello with fut := .ok } }
+    | .connect _ => if s.login then { s with collected := s.collected ++ [r], hello := { s.hello with fut := .ok } } else s
+  else s
+
+-- start task
+def aStartExit (s : State) : State :=
+  { s with startT := { s.startT with exited := true }, resolveTimer := false, tcpTimer := false }
+def aStartFutQuiet (s : State) : State := { s with startFut := if s.startFut = .pending then .done else s.startFut }
+def aStartDone (o : Outcome) (s : State) : State := { s with start := .done o }
+def aStartToSocket (s : State) : State := { s with resolveTimer := false, tcpTimer := true, start := .awaitSocket }
+def aStartAttach (s : State) : State :=
+  { s with tcpTimer := false, sockAttached := true, sockMade := true, startT := { s.startT with exited := true } }
+def aStartFutCb (s : State) : State :=
+  if s.startFut = .pending then { s with startFut := .done, startT := { s.startT with cbPending := true } } else s
+def aSockOpened (s : State) : State := { s with st := .sockOpen, start := .done .ok }
+-- finish task
+def aFinExit (s : State) : State := { s with finishT := { s.finishT with exited := true }, hsTimer := false }
+def aFinFutQuiet (s : State) : State :=
+  if s.finishFut = .pending then { s with finishFut := .done, discCbPending := s.disc = .awaitFinish } else s
+def aFinDone (o : Outcome) (s : State) : State := { s with finish := .done o }
+def aTrCancelled (s : State) : State :=
+  if s.helperMade ∧ s.transportOpen then { s with transportOpen := false, lostPending := true } else s
+def aFhAttach (s : State) : State := { s with fhSet := true, hsTimer := true }
+def aFinToReady (s : State) : State := { s with finish := .awaitReady }
+def aHsEnter (s : State) : State := { s with hsTimer := false, st := .hsDone, internalReg := true }
+def aHelloStart (s : State) : State := { s with hello := startReq, finish := .awaitHello }
+def aHelloFinally (s : State) : State := { s with hello := finishReq s.hello }
+def aKeepalive (s : State) : State :=
+  { s with pingArmed := true, pendingPing := true, finishT := { s.finishT with exited := true } }
+def aFinFutCb (s : State) : State :=
+  if s.finishFut = .pending then
+    { s with finishFut := .done, finishT := { s.finishT with cbPending := true }, discCbPending := s.disc = .awaitFinish }
+  else s
+def aConnected (s : State) : State := { s with st := .connected, everConnected := true, finish := .done .ok }
+-- disconnect
+def aDiscDone (s : State) : State := { s with disc := .done }
+def aDiscRaw (s : State) : State := { s with disc := .done, discRaw := true }
+def aForceRaw (s : State) : State := { s with discRaw := true }
+def aDiscReqStart (s : State) : State := { s with discReq := startReq, disc := .awaitResp }
+def aDiscWaitOver (s : State) : State := { s with discWaitTimer := false }
+def aDiscCancelledW (s : State) : State :=
+  { s with disc := .done, discCancelled := true, discWaitTimer := false, discCbPending := false }
+def aDiscCancelledR (s : State) : State := { s with discReq := finishReq s.discReq, disc := .done, discCancelled := true }
+def aDiscReqFinally (s : State) : State := { s with discReq := finishReq s.discReq }
+
+/-! ## shared handlers -/
+
 /-- `report_fatal_error` -/
-def reportFatal (s : State) (f : Fatal) : State :=
-  cleanup { s with fatal := if s.fatal.isNone then some f else s.fatal }
+def reportFatal (s : State) (f : Fatal) : State := cleanup (aSetFatal f s)
 
 /-- `send_messages`: `none` = written; `some e` = the exception raised -/
 def send (s : State) : State × Option Exc :=
   if !hsComplete s then (s, some (.api .notEstablished))
   else if !s.fhSet then (s, some .other)     -- AttributeError on a `None` frame helper
-  else if s.writeOk then ({ s with writes := s.writes + 1 }, none)
+  else if s.writeOk then (aWrite s, none)
   else (reportFatal s (.api .socketClosed), some (.api .socketClosed))
 
 /-- `_wrap_fatal_connection_exception` -/
@@ -230,21 +303,6 @@ def judge (login : Bool) : List HResp → Option Exc
     else none
   | _ => some .other
 
-/-- the collector's handler: append, and stop on a response of the last expected type -/
-def collect (s : State) (r : HResp) : State :=
-  if s.hello.registered ∧ s.hello.fut = .pending then
-    match r with
-    | .hello _ _ => { s with collected := s.collected ++ [r], hello := if s.login then s.hello else { s.hello with fut := .ok } }
-    | .connect _ => if s.login then { s with collected := s.collected ++ [r], hello := { s.hello with fut := .ok } } else s
-  else s
-
-/-- `handle_complex_message` for a collector whose stop predicate the packet satisfies -/
-def resolveReq (r : Req) : Req :=
-  if r.registered ∧ r.fut = .pending then { r with fut := .ok } else r
-
-/-- the `finally` block of a request -/
-def finishReq (r : Req) : Req := { r with registered := false, inWaiters := false, timer := false }
-
 /-! ## incoming data -/
 
 /-- `process_packet` for one decoded frame; `true` = an exception escaped (the receive loop stops,
@@ -253,69 +311,50 @@ def processPacket (s : State) (p : Pkt) : State × Bool :=
   if s.st = .closed then (s, false) else        -- nothing is processed once closed
   match p with
   | .garbage => (s, false)   -- handled by the frame helper, never reaches process_packet
-  | .badPayload =>
-    (reportFatal s (.api .protocol), true)
-  | _ =>
-    let s := { s with pongArmed := false, pendingPing := false }
-    match p with
-    | .hresp r => (collect s r, false)
-    | .discResp => ({ s with discReq := resolveReq s.discReq }, false)
-    | .discReq =>
-      if s.internalReg then
-        let s := { s with expected := true, graceful := true }
-        match send s with
-        | (s, some _) => (s, true)
-        | (s, none) => (cleanup s, false)
-      else (s, false)
-    | .pingReq =>
-      if s.internalReg then
-        match send s with
-        | (s, some _) => (s, true)
-        | (s, none) => (s, false)
-      else (s, false)
-    | .other => ({ s with deliveries := s.deliveries + 1 }, false)
-    | _ => (s, false)
+  | .badPayload => (reportFatal s (.api .protocol), true)
+  | .hresp r => (collect (aAlive s) r, false)
+  | .discResp => (aDiscRespArr (aAlive s), false)
+  | .discReq =>
+    if s.internalReg then
+      match send (aMark (aAlive s)) with
+      | (s, some _) => (s, true)
+      | (s, none) => (cleanup s, false)
+    else (aAlive s, false)
+  | .pingReq =>
+    if s.internalReg then
+      match send (aAlive s) with
+      | (s, some _) => (s, true)
+      | (s, none) => (s, false)
+    else (aAlive s, false)
+  | .other => (aDeliver (aAlive s), false)
 
 /-- the frame helper's receive loop over the frames of one `data_received` call -/
 def feed : State → List Pkt → State
   | s, [] => s
   | s, .garbage :: _ =>
     -- `_handle_error_and_close`: fail a pending ready future, report, close; the loop returns
-    let s := { s with ready := if s.ready = .pending then .failed .protocol else s.ready }
-    let s := reportFatal s (.api .protocol)
-    { s with lostPending := s.lostPending || s.transportOpen, transportOpen := false }
+    aTrClose (reportFatal (aReadyFail .protocol s) (.api .protocol))
   | s, p :: ps =>
     match processPacket s p with
-    | (s, true) =>
-      -- exception out of data_received: asyncio force-closes the transport and calls connection_lost(exc)
-      { s with lostPending := true, lostExc := true, transportOpen := false }
+    | (s, true) => aTrAbort s   -- exception out of data_received: force close, connection_lost(exc)
     | (s, false) => feed s ps
 
 /-- `connection_lost(exc)` -/
 def onLost (s : State) : State :=
-  let f : Fatal := if s.lostExc then .raw else .api .socketClosed
   -- a raw OSError on the ready future becomes HandshakeAPIError in `_connect_init_frame_helper`
-  let e : Err := if s.lostExc then .handshake else .socketClosed
-  let s := { s with lostPending := false, transportOpen := false, sockClosed := s.sockClosed || s.sockMade,
-                    ready := if s.ready = .pending then .failed e else s.ready }
-  reportFatal s f
+  reportFatal (aReadyFail (if s.lostExc then .handshake else .socketClosed) (aLostRun s))
+    (if s.lostExc then .raw else .api .socketClosed)
 
 /-! ## the connect phases -/
 
 /-- leaving `async with interrupt(...)` and the `except`/`finally` of a phase with exception `ex` -/
 def failStart (s : State) (ex : Exc) : State :=
-  let s := { s with startT := { s.startT with exited := true }, resolveTimer := false, tcpTimer := false }
-  let s := cleanup s
-  let e := wrap s ex
-  let s := if s.startFut = .pending then { s with startFut := .done } else s
-  { s with start := .done (.err e) }
+  let s := cleanup (aStartExit s)
+  aStartDone (.err (wrap s ex)) (aStartFutQuiet s)
 
 def failFinish (s : State) (ex : Exc) : State :=
-  let s := { s with finishT := { s.finishT with exited := true }, hsTimer := false }
-  let s := cleanup s
-  let e := wrap s ex
-  let s := if s.finishFut = .pending then { s with finishFut := .done, discCbPending := s.disc = .awaitFinish } else s
-  { s with finish := .done (.err e) }
+  let s := cleanup (aFinExit s)
+  aFinDone (.err (wrap s ex)) (aFinFutQuiet s)
 
 /-- the exception a pending cancellation turns into when the task resumes -/
 def cancelExc (t : Tk) : Option Exc :=
@@ -333,7 +372,7 @@ def stepStart (s : State) : State :=
       else match s.resolveRes with
         | .none => s
         | .fail => failStart s (.api .resolve)
-        | .ok => { s with resolveTimer := false, tcpTimer := true, start := .awaitSocket }
+        | .ok => aStartToSocket s
   | .awaitSocket =>
     match cancelExc s.startT with
     | some ex => failStart s ex     -- a cancelled await never hands a socket over
@@ -343,45 +382,36 @@ def stepStart (s : State) : State :=
         | .none => s
         | .fail => failStart s (.api .socket)
         | .ok =>
-          let s := { s with tcpTimer := false, sockAttached := true, sockMade := true,
-                            startT := { s.startT with exited := true } }
-          let s := if s.startFut = .pending then { s with startFut := .done, startT := { s.startT with cbPending := true } } else s
+          let s := aStartFutCb (aStartAttach s)
           -- closed in the same turn the phase completed: do not reopen
           if s.st = .closed then
             let s := cleanup s
-            { s with start := .done (.err (wrap s .interrupted)) }
-          else { s with st := .sockOpen, start := .done .ok }
+            aStartDone (.err (wrap s .interrupted)) s
+          else aSockOpened s
   | _ => s
 
 /-- `_connect_hello_login` up to its await -/
 def sendHello (s : State) : State :=
   match send s with
   | (s, some ex) => failFinish s ex
-  | (s, none) =>
-    { s with hello := { fut := .pending, registered := true, inWaiters := true, timer := true }, finish := .awaitHello }
+  | (s, none) => aHelloStart s
 
 def afterReady (s : State) : State :=
   -- closed while the helper was being set up (same turn): do not reopen
-  if s.st = .closed then failFinish s .interrupted else
-  let s := { s with hsTimer := false, st := .hsDone, internalReg := true }
-  sendHello s
+  if s.st = .closed then failFinish s .interrupted else sendHello (aHsEnter s)
 
 def stepFinish (s : State) : State :=
   match s.finish with
   | .awaitTransport =>
     match cancelExc s.finishT with
-    | some ex =>
-      -- asyncio's create_connection closes the transport it made when its await is cancelled
-      let s := if s.helperMade ∧ s.transportOpen then { s with transportOpen := false, lostPending := true } else s
-      failFinish s ex
+    | some ex => failFinish (aTrCancelled s) ex   -- asyncio closes the transport it made when its await is cancelled
     | none =>
       if !s.transportWaiter then s else
       if s.transportFailed then failFinish s .os else
-      let s := { s with fhSet := true, hsTimer := true }
       match s.ready with
-      | .ok => afterReady s
-      | .failed e => failFinish s (.api e)
-      | _ => { s with finish := .awaitReady }
+      | .ok => afterReady (aFhAttach s)
+      | .failed e => failFinish (aFhAttach s) (.api e)
+      | _ => aFinToReady (aFhAttach s)
   | .awaitReady =>
     match cancelExc s.finishT with
     | some ex => failFinish s ex
@@ -393,25 +423,21 @@ def stepFinish (s : State) : State :=
       | _ => s
   | .awaitHello =>
     match cancelExc s.finishT with
-    | some ex => failFinish { s with hello := finishReq s.hello } ex
+    | some ex => failFinish (aHelloFinally s) ex
     | none =>
       match s.hello.fut with
       | .ok =>
-        let s := { s with hello := finishReq s.hello }
         match judge s.login s.collected with
-        | some ex => failFinish s ex
+        | some ex => failFinish (aHelloFinally s) ex
         | none =>
-          -- `_async_schedule_keep_alive`
-          let s := { s with pingArmed := true, pendingPing := true, finishT := { s.finishT with exited := true } }
-          let s := if s.finishFut = .pending then
-              { s with finishFut := .done, finishT := { s.finishT with cbPending := true }, discCbPending := s.disc = .awaitFinish }
-            else s
+          -- `_async_schedule_keep_alive`, leave the interrupt block, `finally`
+          let s := aFinFutCb (aKeepalive (aHelloFinally s))
           if s.st = .closed then
             let s := cleanup s
-            { s with finish := .done (.err (wrap s .interrupted)) }
-          else { s with st := .connected, everConnected := true, finish := .done .ok }
-      | .tmo => failFinish { s with hello := finishReq s.hello } (.api .timeout)
-      | .failed e => failFinish { s with hello := finishReq s.hello } (.api e)
+            aFinDone (.err (wrap s .interrupted)) s
+          else aConnected s
+      | .tmo => failFinish (aHelloFinally s) (.api .timeout)
+      | .failed e => failFinish (aHelloFinally s) (.api e)
       | _ => s
   | _ => s
 
@@ -423,127 +449,132 @@ def onInterrupt (t : Tk) : Tk :=
 /-! ## disconnect -/
 
 def discSend (s : State) : State :=
-  -- `self._expected_disconnect = True` (set on entry already), then the request if the handshake is complete
+  -- (`_expected_disconnect = True` was set on entry) the request goes out if the handshake is complete
   if hsComplete s then
     match send s with
-    | (s, some (.api _)) => { cleanup s with disc := .done }   -- `except APIConnectionError`: logged; then `_cleanup`
-    | (s, some _) => { s with disc := .done, discRaw := true }   -- anything else escapes `disconnect()`
-    | (s, none) =>
-      { s with discReq := { fut := .pending, registered := true, inWaiters := true, timer := true }, disc := .awaitResp }
-  else { cleanup s with disc := .done }
+    | (s, some (.api _)) => aDiscDone (cleanup s)   -- `except APIConnectionError`: logged; then `_cleanup`
+    | (s, some _) => aDiscRaw s                      -- anything else escapes `disconnect()`
+    | (s, none) => aDiscReqStart s
+  else aDiscDone (cleanup s)
 
 def stepDisc (s : State) : State :=
   match s.disc with
   | .awaitFinish =>
-    if s.discCancel then { s with disc := .done, discCancelled := true, discWaitTimer := false, discCbPending := false }
+    if s.discCancel then aDiscCancelledW s
     else if s.discWaiterDone then
       -- the wait ended: either the phase finished or 5 s passed
-      let s := if s.finishFut = .pending then { s with fatal := if s.fatal.isNone then some (.api .timeout) else s.fatal } else s
-      discSend { s with discWaitTimer := false }
+      if s.finishFut = .pending then discSend (aDiscWaitOver (aSetFatal (.api .timeout) s))
+      else discSend (aDiscWaitOver s)
     else s
   | .awaitResp =>
-    if s.discCancel then { s with discReq := finishReq s.discReq, disc := .done, discCancelled := true }
+    if s.discCancel then aDiscCancelledR s
     else match s.discReq.fut with
       | .pending => s
-      | _ => { cleanup { s with discReq := finishReq s.discReq } with disc := .done }
+      | _ => aDiscDone (cleanup (aDiscReqFinally s))
   | _ => s
 
 /-! ## the transition function -/
 
+def aRefused (s : State) : State := { s with refused := s.refused + 1 }
+def aStartBegin (s : State) : State := { s with start := .awaitResolve, startFut := .pending, resolveTimer := true }
+def aResolveSet (ok : Bool) (s : State) : State := { s with resolveRes := if ok then .ok else .fail }
+def aSockSet (ok : Bool) (s : State) : State := { s with sockRes := if ok then .ok else .fail }
+def aUserCancelStart (s : State) : State := { s with startT := { s.startT with userCancel := true } }
+def aFinishBegin (s : State) : State := { s with finish := .awaitTransport, finishFut := .pending }
+def aConnMadeFail (s : State) : State := { s with transportWaiter := true, transportFailed := true }
+def aConnMadeOk (s : State) : State :=
+  { s with helperMade := true, transportOpen := true, transportWaiter := true, ready := if s.noise then .pending else .ok }
+def aReadyOk (s : State) : State := { s with ready := .ok }
+def aUserCancelFinish (s : State) : State :=
+  { s with finishT := { s.finishT with userCancel := true },
+           hello := if s.hello.fut = .pending then { s.hello with fut := .cancelled } else s.hello }
+def aCbStart (s : State) : State := { s with startT := onInterrupt s.startT }
+/-- `_on_interrupt` of the finish phase; `task.cancel()` also cancels the future the task is awaiting -/
+def aCbFinish (s : State) : State :=
+  { s with finishT := onInterrupt s.finishT,
+           hello := if (onInterrupt s.finishT).interrupted ∧ s.hello.fut = .pending then { s.hello with fut := .cancelled } else s.hello }
+def aDiscBegin (s : State) : State := { s with disc := .awaitFinish, discWaitTimer := true }
+/-- asyncio.wait's `_on_completion`: cancel the timeout handle, release the waiter -/
+def aCbDiscWait (s : State) : State := { s with discCbPending := false, discWaitTimer := false, discWaiterDone := true }
+def aDiscCancelW (s : State) : State := { s with discCancel := true }
+def aDiscCancelR (s : State) : State :=
+  { s with discCancel := true, discReq := if s.discReq.fut = .pending then { s.discReq with fut := .cancelled } else s.discReq }
+def aFireResolve (s : State) : State := { s with resolveTimer := false, startT := { s.startT with timedOut := true } }
+def aFireTcp (s : State) : State := { s with tcpTimer := false, startT := { s.startT with timedOut := true } }
+def aFireHs (s : State) : State := { s with hsTimer := false, ready := if s.ready = .pending then .tmo else s.ready }
+def aFireHello (s : State) : State :=
+  { s with hello := { s.hello with timer := false, fut := if s.hello.fut = .pending then .tmo else s.hello.fut } }
+def aPingRearm (s : State) : State := { s with pongArmed := true, pendingPing := true }
+def aPingPend (s : State) : State := { s with pendingPing := true }
+def aPongOff (s : State) : State := { s with pongArmed := false }
+def aFireDiscWait (s : State) : State := { s with discWaitTimer := false, discWaiterDone := true }
+def aFireDiscResp (s : State) : State :=
+  { s with discReq := { s.discReq with timer := false, fut := if s.discReq.fut = .pending then .tmo else s.discReq.fut } }
+def aSetWrite (ok : Bool) (s : State) : State := { s with writeOk := ok }
+
 def step (s : State) : Ev → State
   | .callStart =>
-    if s.start ≠ .idle then s
-    else if s.st ≠ .init then { s with start := .done .rawRuntime }
-    else { s with start := .awaitResolve, startFut := .pending, resolveTimer := true }
-  | .resolved ok => if s.start = .awaitResolve ∧ s.resolveRes = .none then { s with resolveRes := if ok then .ok else .fail } else s
-  | .sockDone ok =>
-    if s.start = .awaitSocket ∧ s.sockRes = .none then
-      { s with sockRes := if ok then .ok else .fail }
-    else s
+    -- the guard looks at the lifecycle state only: "Connection can only be used once"
+    if s.st ≠ .init then aRefused s
+    else if s.start ≠ .idle then s      -- (a concurrent duplicate call: outside the scenarios, see DESIGN.md)
+    else aStartBegin s
+  | .resolved ok => if s.start = .awaitResolve ∧ s.resolveRes = .none then aResolveSet ok s else s
+  | .sockDone ok => if s.start = .awaitSocket ∧ s.sockRes = .none then aSockSet ok s else s
   | .wakeStart => stepStart s
-  | .cancelStart =>
-    match s.start with
-    | .awaitResolve | .awaitSocket => { s with startT := { s.startT with userCancel := true } }
-    | _ => s
+  | .cancelStart => if s.start = .awaitResolve ∨ s.start = .awaitSocket then aUserCancelStart s else s
   | .callFinish =>
-    if s.finish ≠ .idle then s
-    else if s.st ≠ .sockOpen then { s with finish := .done .rawRuntime }
-    else { s with finish := .awaitTransport, finishFut := .pending }
+    if s.st ≠ .sockOpen then aRefused s
+    else if s.finish ≠ .idle then s     -- (a concurrent duplicate call: outside the scenarios)
+    else aFinishBegin s
   | .connMade =>
     if s.finish = .awaitTransport ∧ !s.helperMade ∧ !s.transportWaiter then
-      if s.sockClosed then { s with transportWaiter := true, transportFailed := true }
-      else { s with helperMade := true, transportOpen := true, transportWaiter := true,
-                    ready := if s.noise then .pending else .ok }
+      if s.sockClosed then aConnMadeFail s else aConnMadeOk s
     else s
-  | .hsOk => if s.ready = .pending ∧ s.transportOpen then { s with ready := .ok } else s
+  | .hsOk => if s.ready = .pending ∧ s.transportOpen then aReadyOk s else s
   | .wakeFinish => stepFinish s
   | .cancelFinish =>
-    match s.finish with
-    | .awaitTransport | .awaitReady | .awaitHello =>
-      { s with finishT := { s.finishT with userCancel := true },
-               hello := if s.hello.fut = .pending then { s.hello with fut := .cancelled } else s.hello }
-    | _ => s
-  | .cbStart =>
-    if s.startT.cbPending then { s with startT := onInterrupt s.startT } else s
-  | .cbFinish =>
-    if s.finishT.cbPending then
-      let t := onInterrupt s.finishT
-      -- `task.cancel()` also cancels the future the task is awaiting
-      { s with finishT := t,
-               hello := if t.interrupted ∧ s.hello.fut = .pending then { s.hello with fut := .cancelled } else s.hello }
-    else s
+    if s.finish = .awaitTransport ∨ s.finish = .awaitReady ∨ s.finish = .awaitHello then aUserCancelFinish s else s
+  | .cbStart => if s.startT.cbPending then aCbStart s else s
+  | .cbFinish => if s.finishT.cbPending then aCbFinish s else s
   | .callDisc =>
-    if s.disc ≠ .idle then s else
-    let s := { s with expected := true, graceful := true }     -- the marker is set on entry
-    if s.finishFut = .pending then { s with disc := .awaitFinish, discWaitTimer := true }
-    else discSend s
+    if s.disc ≠ .idle then s
+    -- the marker is set on entry
+    else if s.finishFut = .pending then aDiscBegin (aMark s)
+    else discSend (aMark s)
   | .wakeDisc => stepDisc s
-  | .cbDiscWait =>
-    -- asyncio.wait's `_on_completion`: cancel the timeout handle, release the waiter
-    if s.discCbPending then { s with discCbPending := false, discWaitTimer := false, discWaiterDone := true } else s
-  | .cancelDisc => match s.disc with
-    | .awaitFinish => { s with discCancel := true }
-    | .awaitResp => { s with discCancel := true, discReq := if s.discReq.fut = .pending then { s.discReq with fut := .cancelled } else s.discReq }
-    | _ => s
+  | .cbDiscWait => if s.discCbPending then aCbDiscWait s else s
+  | .cancelDisc =>
+    if s.disc = .awaitFinish then aDiscCancelW s
+    else if s.disc = .awaitResp then aDiscCancelR s
+    else s
   | .force =>
-    let s := { s with expected := true, graceful := true }
     if hsComplete s then
-      match send s with
+      match send (aMark s) with
       | (s, some (.api _)) => cleanup s
-      | (s, some _) => { s with discRaw := true }
+      | (s, some _) => aForceRaw s
       | (s, none) => cleanup s
-    else cleanup s
+    else cleanup (aMark s)
   | .data pkts => if s.transportOpen then feed s pkts else s
   | .eof =>
-    if s.transportOpen then
-      let s := { s with ready := if s.ready = .pending then .failed .socketClosed else s.ready }
-      let s := reportFatal s (.api .socketClosed)
-      { s with lostPending := s.lostPending || s.transportOpen, transportOpen := false }
-    else s
-  | .reset =>
-    if s.helperMade ∧ s.transportOpen then { s with transportOpen := false, lostPending := true, lostExc := true }
-    else s
+    if s.transportOpen then aTrClose (reportFatal (aReadyFail .socketClosed s) (.api .socketClosed)) else s
+  | .reset => if s.helperMade ∧ s.transportOpen then aTrAbort s else s
   | .lost => if s.lostPending then onLost s else s
-  | .fireResolve => if s.resolveTimer ∧ s.start = .awaitResolve then { s with resolveTimer := false, startT := { s.startT with timedOut := true } } else s
-  | .fireTcp => if s.tcpTimer ∧ s.start = .awaitSocket then { s with tcpTimer := false, startT := { s.startT with timedOut := true } } else s
-  | .fireHs => if s.hsTimer then { s with hsTimer := false, ready := if s.ready = .pending then .tmo else s.ready } else s
-  | .fireHello =>
-    if s.hello.timer then { s with hello := { s.hello with timer := false, fut := if s.hello.fut = .pending then .tmo else s.hello.fut } } else s
+  | .fireResolve => if s.resolveTimer ∧ s.start = .awaitResolve then aFireResolve s else s
+  | .fireTcp => if s.tcpTimer ∧ s.start = .awaitSocket then aFireTcp s else s
+  | .fireHs => if s.hsTimer then aFireHs s else s
+  | .fireHello => if s.hello.timer then aFireHello s else s
   | .firePing =>
     if s.pingArmed then
       if s.pendingPing then
         match send s with
         | (s, some _) => s          -- the exception ends the timer callback: no re-arm (the connection is closed)
-        | (s, none) => { s with pongArmed := true, pendingPing := true }
-      else { s with pendingPing := true }
+        | (s, none) => aPingRearm s
+      else aPingPend s
     else s
-  | .firePong => if s.pongArmed then reportFatal { s with pongArmed := false } (.api .pingFailed) else s
-  | .fireDiscWait => if s.discWaitTimer then { s with discWaitTimer := false, discWaiterDone := true } else s
-  | .fireDiscResp =>
-    if s.discReq.timer then
-      { s with discReq := { s.discReq with timer := false, fut := if s.discReq.fut = .pending then .tmo else s.discReq.fut } }
-    else s
-  | .setWrite ok => { s with writeOk := ok }
+  | .firePong => if s.pongArmed then reportFatal (aPongOff s) (.api .pingFailed) else s
+  | .fireDiscWait => if s.discWaitTimer then aFireDiscWait s else s
+  | .fireDiscResp => if s.discReq.timer then aFireDiscResp s else s
+  | .setWrite ok => aSetWrite ok s
 
 def run (s : State) (evs : List Ev) : State := evs.foldl step s
 
